@@ -22,13 +22,13 @@ import (
 // blocks under their true CID (like IPFS, the stub cannot hold bytes under a foreign CID),
 // publishes arbitrary bytes on any topic and serves its blocks to whoever asks.
 type Adversary struct {
-	K    *K
-	Node *Node
-	Inc  *Inc
-	API  *API
-	KS   *keystore.Keystore
-	Own  *idp.Identity
-	n    int
+	K         *K
+	Node      *Node
+	Inc       *Inc
+	API       *API
+	KS        *keystore.Keystore
+	Own       *idp.Identity
+	n         int
 	victimPub []byte
 }
 
